@@ -9,6 +9,7 @@ import (
 	"fmt"
 	"os"
 	"runtime/debug"
+	"strings"
 
 	"verifh/h"
 	"verifh/verif"
@@ -16,7 +17,17 @@ import (
 
 func main() {
 	obs := flag.Bool("obs", false, "print observations")
+	has := flag.String("has", "", "exit 0 iff every comma-separated harness name is registered")
 	flag.Parse()
+	if *has != "" {
+		for _, n := range strings.Split(*has, ",") {
+			if _, ok := h.Registry[n]; !ok {
+				fmt.Println("unregistered harness:", n)
+				os.Exit(1)
+			}
+		}
+		os.Exit(0)
+	}
 	if flag.NArg() != 1 {
 		fmt.Fprintln(os.Stderr, "usage: replay [-obs] file.json")
 		os.Exit(2)
